@@ -1948,6 +1948,7 @@ func getIndexMap2(n *node) {
 	next := getExec(n.tnext)
 	doValue := n.anc.child[0].ident != "_"
 	doStatus := n.anc.child[1].ident != "_"
+	z := reflect.New(n.child[0].typ.frameType().Elem()).Elem() // result for a missing key
 
 	if !doValue && !doStatus {
 		nop(n)
@@ -1967,6 +1968,8 @@ func getIndexMap2(n *node) {
 				v := value0(f).MapIndex(mi)
 				if v.IsValid() {
 					dest(f).Set(v)
+				} else {
+					dest(f).Set(z)
 				}
 				if doStatus {
 					value2(f).SetBool(v.IsValid())
@@ -1988,6 +1991,8 @@ func getIndexMap2(n *node) {
 				v := value0(f).MapIndex(value1(f))
 				if v.IsValid() {
 					dest(f).Set(v)
+				} else {
+					dest(f).Set(z)
 				}
 				if doStatus {
 					value2(f).SetBool(v.IsValid())
